@@ -200,8 +200,28 @@ class Variant:
         self.single_char = single_char
 
 
+def _reindented(how: str, lit: str) -> str:
+    """The literal after the generator's own re-indentation of the code that holds it (what reaches the generated
+    file): ``textwrap.indent`` / ``common.indent_but_first_line`` split the text with ``str.splitlines``."""
+    import textwrap
+
+    if how == "textwrap":
+        out = textwrap.indent(lit, "    ")
+        return out[4:] if out.startswith("    ") else out
+    from aas_core_codegen import common as cc
+
+    out = cc.indent_but_first_line("X\n" + lit, "    ")
+    rest = out.split("\n", 1)[1] if "\n" in out else ""
+    return rest[4:] if rest.startswith("    ") else rest
+
+
+#: variants without a Lean model of their own: the modelled encoder followed by the re-indentation of the generator
+UNMODELLED_VARIANTS = {"py:reindent:textwrap", "py:reindent:common"}
+
 VARIANTS: List[Variant] = [
     Variant("py:n:0:0", lambda s: _py().string_literal(s), cps, "py"),
+    Variant("py:reindent:textwrap", lambda s: _reindented("textwrap", _py().string_literal(s)), cps, "py"),
+    Variant("py:reindent:common", lambda s: _reindented("common", _py().string_literal(s)), cps, "py"),
     Variant("py:s:0:0", lambda s: _py().string_literal(s, _pyq("s")), cps, "py"),
     Variant("py:d:0:0", lambda s: _py().string_literal(s, _pyq("d")), cps, "py"),
     Variant("py:n:0:1", lambda s: _py().string_literal(s, duplicate_curly_brackets=True), cps, "pyf"),
@@ -502,7 +522,7 @@ def run_strings(ctx: Ctx, with_model: bool, items: Optional[List[Tuple[str, str]
     ])
     for (v, sel, outs, idx), vals in zip(plan, all_vals):
         # correspondence of the encoder
-        if with_model:
+        if with_model and v.name not in UNMODELLED_VARIANTS:
             mouts = ctx.model([_enc_line(v.name, s) for s, _ in sel])
             for (s, st), o, m in zip(sel, outs, mouts):
                 ctx.traces_validated += 1
@@ -719,7 +739,8 @@ def replay(ctx: Ctx, data: Dict[str, Any]) -> Any:
             res["read_back"] = val
             res["oracle"] = judge_one(v, s, o, val)
             if ctx.driver_ok:
-                res["model"] = ctx.model([_enc_line(name, s)])[0]
+                if name not in UNMODELLED_VARIANTS:
+                    res["model"] = ctx.model([_enc_line(name, s)])[0]
                 if o[0] == "ok":
                     res["model_decoder"] = ctx.model([f"dec {v.reader} {enc_text(o[1])}"])[0]
         else:
